@@ -30,6 +30,7 @@ type c18Case struct {
 	Pairs bool          `json:"pairs"`           // also enumerate every second fault in the re-run
 	Enc   *encProtoCase `json:"enc,omitempty"`   // error-path search on ONE Encoder object: a Write torn at its 1st / 2nd file write, a load whose k-th read dies, then retries on that object (encproto.go)
 	Dec   *decProtoCase `json:"dec,omitempty"`   // error-path search on ONE Decoder object: interrupted Repairs, loads whose k-th read fails, then retries (decproto.go)
+	DirAt int           `json:"dirat,omitempty"` // k > 0: the k-th path the operation deals with (see c18DirCandidates) is a directory (Kind 0: empty, 1: holding a file) instead of a file / of nothing
 	World int           `json:"world,omitempty"` // 0: 2 files / 3 blocks (PAR1: 3 files / 2 volumes); 1 (thorough): 3 files / 7 blocks in 3 recovery files (PAR1: 4 files / 3 volumes), all 6 listing orders
 }
 
@@ -320,6 +321,12 @@ func c18Gen(g *core.Gen) {
 						}
 						fs := w.initial(op, st, g.Seed)
 						base := w.run(fs, op, order, -1, 0)
+						if order == 0 && world != 1 {
+							for k := range c18DirCandidates(w, w.initial(op, st, g.Seed), base) {
+								g.Emit(&c18Case{Fmt: f, Op: op, State: st, DirAt: k + 1, Kind: 0, World: world})
+								g.Emit(&c18Case{Fmt: f, Op: op, State: st, DirAt: k + 1, Kind: 1, World: world})
+							}
+						}
 						n := len(base.log)
 						for i := 0; i < n; i++ {
 							kinds := 1
@@ -486,6 +493,54 @@ func c18Run(ci interface{}, r *core.Rec) {
 		}
 	}
 
+	if c.DirAt > 0 {
+		// a directory where the operation expects a file (or nothing): reading or writing it fails, and that is not
+		// "the file does not exist"
+		fsD := w.initial(c.Op, c.State, r.Seed)
+		cands := c18DirCandidates(w, fsD, base)
+		if c.DirAt > len(cands) {
+			r.Note(fmt.Sprintf("%s %s %s: only %d paths", c.Fmt, c.Op, c.State, len(cands)))
+			return
+		}
+		p := cands[c.DirAt-1]
+		prev, had := fsD.Get(p)
+		fsD.Del(p)
+		if c.Kind == 0 {
+			if fsD.Dirs == nil {
+				fsD.Dirs = map[string]bool{}
+			}
+			fsD.Dirs[p] = true
+		} else {
+			fsD.Put(p+"/inner.txt", []byte("inside the directory"))
+		}
+		beforeD := fsD.Snapshot()
+		rd := w.run(fsD, c.Op, c.Order, -1, 0)
+		for _, o := range rd.log {
+			if path.Clean(o.Path) == p && o.Err != "" {
+				rd.reached = true
+			}
+		}
+		r.AddStates(1)
+		r.AddTransitions(2)
+		tag := fmt.Sprintf("directory at %s (%v)", p, []string{"empty", "holding a file"}[c.Kind])
+		if !checkFaulted(tag, beforeD, fsD, rd) {
+			return
+		}
+		if rd.reached {
+			r.NontrivialCase()
+		} else {
+			r.Count("directory_not_reached", 1)
+		}
+		r.Outcome(fmt.Sprintf("dir %s %s %s", c.Op, errClass(rd.err), c18LogString(rd.log)))
+		// the directory goes away, what was there before comes back
+		delete(fsD.Dirs, p)
+		fsD.Del(p + "/inner.txt")
+		if had {
+			fsD.Put(p, prev)
+		}
+		finalCheck("after the "+tag+" was removed", fsD)
+		return
+	}
 	fs1 := w.initial(c.Op, c.State, r.Seed)
 	before1 := fs1.Snapshot()
 	r1 := w.run(fs1, c.Op, c.Order, c.I, c.Kind)
@@ -537,6 +592,33 @@ func c18Run(ci interface{}, r *core.Rec) {
 	}
 }
 
+// c18DirCandidates: every file of the starting directory, every other path the undisturbed run reads or writes (of those
+// that do not exist, only the first two and the last one: PAR1 probes up to 99 volume names), and for PAR2 one further
+// name that matches the recovery-file pattern.
+func c18DirCandidates(w *c18World, fs *envfs.FS, base c18Result) []string {
+	out := fs.Paths()
+	have := map[string]bool{}
+	for _, p := range out {
+		have[p] = true
+	}
+	var rest []string
+	for _, o := range base.log {
+		if p := path.Clean(o.Path); (o.Kind == "read" || o.Kind == "write") && !have[p] {
+			have[p] = true
+			rest = append(rest, p)
+		}
+	}
+	sort.Strings(rest)
+	if len(rest) > 3 {
+		rest = append(rest[:2:2], rest[len(rest)-1])
+	}
+	out = append(out, rest...)
+	if w.fmtName == "p2" {
+		out = append(out, strings.TrimSuffix(w.index, ".par2")+".zzz.par2")
+	}
+	return out
+}
+
 func c18LogString(log []envfs.Op) string {
 	s := ""
 	for _, o := range log {
@@ -556,7 +638,7 @@ func init() {
 	core.Register(&core.Prop{
 		ID:    "C18",
 		Level: "fault_enumeration",
-		Rule: "(plus the error-path alphabet of the decoder protocol search - see C14 - on one Decoder object per sequence: Repair with its 1st / 2nd write torn, loads whose 1st / 2nd / 3rd read fails, then counts / Repair retries on the same object; and the error-path alphabet of the encoder protocol search - see C05 / C10 - on one Encoder object per sequence: Write with its 1st / 2nd file write torn, loads whose 1st / 2nd read dies half-way, then the same calls again) environment enumeration on the owned filesystem: {Create, Verify, Repair, Repair+double-check} x {PAR1, PAR2} x archive state {intact, one file missing, one changed, one shifted, beyond capacity, volume missing + damage, two damaged, recovery data under look-alike names (a renamed volume whose blocks are needed + another set's index), an index file whose own name looks like a recovery file's} x listing order {sorted, reversed, rotated}; thorough adds a larger world (3 files, 7 blocks in 3 recovery files; PAR1 4 files, 3 volumes) with all 6 listing orders; a fault at EACH I/O call index of the never-faulted run, of each kind (error without effect; for reads additionally the error together with the first half of the file; for writes additionally torn at byte 0, 1, middle, len-1 and packet/field boundaries), and for each such fault EVERY second fault in the re-run (pairs), followed by a fault-free re-run. " +
+		Rule: "(plus the error-path alphabet of the decoder protocol search - see C14 - on one Decoder object per sequence: Repair with its 1st / 2nd write torn, loads whose 1st / 2nd / 3rd read fails, then counts / Repair retries on the same object; and the error-path alphabet of the encoder protocol search - see C05 / C10 - on one Encoder object per sequence: Write with its 1st / 2nd file write torn, loads whose 1st / 2nd read dies half-way, then the same calls again) a directory (empty / holding a file) in place of every file the operation reads or writes, of a file that is missing, and under one further name matching the recovery-file pattern, then taken away again; environment enumeration on the owned filesystem: {Create, Verify, Repair, Repair+double-check} x {PAR1, PAR2} x archive state {intact, one file missing, one changed, one shifted, beyond capacity, volume missing + damage, two damaged, recovery data under look-alike names (a renamed volume whose blocks are needed + another set's index), an index file whose own name looks like a recovery file's} x listing order {sorted, reversed, rotated}; thorough adds a larger world (3 files, 7 blocks in 3 recovery files; PAR1 4 files, 3 volumes) with all 6 listing orders; a fault at EACH I/O call index of the never-faulted run, of each kind (error without effect; for reads additionally the error together with the first half of the file; for writes additionally torn at byte 0, 1, middle, len-1 and packet/field boundaries), and for each such fault EVERY second fault in the re-run (pairs), followed by a fault-free re-run. " +
 			"Oracle: a reached fault => non-nil error; a path whose write failed is not reported repaired; only write targets change; the fault-free re-run succeeds exactly like the never-faulted run and ends in the same directory whenever the reference says the (possibly torn) directory is still within capacity. non-trivial = the injected fault was reached",
 		Assumptions: []string{"faults are injected at the fileIO seam (the only I/O gopar performs)", "a torn write leaves a prefix of the data in the target file"},
 		NewCase:     func() interface{} { return &c18Case{} },
